@@ -11,6 +11,7 @@
 #include <set>
 #include <unordered_set>
 #include <unistd.h>
+#include <sys/syscall.h>
 #include <fcntl.h>
 #include <chrono>
 #include <atomic>
@@ -24,7 +25,7 @@ namespace vf {
 int rcMain(); // engine_rc.cpp (weak: the fuzz binary does not link it)
 int rcMain() __attribute__((weak));
 
-static RunConfig g_cfg;
+static RunConfig & g_cfg = *new RunConfig; // never destroyed: crash / sanitizer callbacks may run during static destruction
 RunConfig & config() { return g_cfg; }
 
 namespace {
@@ -43,8 +44,8 @@ struct Stats
 	std::vector<std::pair<std::string, std::string> > fallback; // first cases of the run, used when no non-trivial sample exists
 	std::chrono::steady_clock::time_point start = std::chrono::steady_clock::now();
 };
-Stats g_stats;
-Verdict g_last;
+Stats & g_stats = *new Stats; // never destroyed (see g_cfg)
+Verdict & g_last = *new Verdict;
 
 const size_t kCaseBuf = 1 << 20;
 char g_caseBuf[kCaseBuf];
@@ -244,16 +245,14 @@ void dieWithFailure(const std::string & rule, const std::string & msg, int exitC
 	fflush(stdout);
 	g_dying = 1;
 	writeStats();
+	// the raw system call: _exit() is intercepted by the sanitizer runtimes, whose finalisation can block for ever when
+	// another thread is in the middle of a report
+	syscall(SYS_exit_group, exitCode);
 	_exit(exitCode);
 }
 
-bool g_statsAlive = true;
-struct StatsLifetime { ~StatsLifetime() { g_statsAlive = false; } };
-
 void writeStats()
 {
-	static StatsLifetime lifetime; // destroyed before g_stats (constructed later): marks the end of safe access
-	if(! g_statsAlive) return;
 	std::string path = outPath("stats", "json");
 	FILE * f = fopen(path.c_str(), "w");
 	if(! f) return;
